@@ -19,7 +19,7 @@ func init() {
 		Technique: "storage-layout analysis: component kinds of every Find prefix and every Put key (constant, fixed-width, variable-length integer, caller-supplied bytes) — R-prefix rule, constant-prefix family disjointness, put/get key-term agreement; must-facts for the gates, the id length bound and the cleanup deltas",
 		Explanation: "D1 R-prefix: a Find whose prefix ends in a variable-length integer encoding while stored keys of that family continue after it also enumerates keys of other integers (bytes(1) is a prefix of bytes(257)); every scan of reputation, audit, container estimations, neofsid and the configuration maps is classified. Constant scan prefixes are family-disjoint. " +
 			"D2 put/get agreement: every getter builds its key/prefix from the same component terms as the putter (reputation storageID, audit header ID, estimation key, owner keys, config‖key); GetContainerSize accepts exactly the ids ListContainerSizes can return (length bound = prefix + container id). " +
-			"D3 gates: putContainerSize under W(key) ∧ membership of that key in the previous epoch's network map, audit.put under W(header.From) ∧ header.From ∈ Inner Ring. D4 cleanup: estimations are removed exactly when epoch − e > 3 (per node) resp. > 4 (global), with the key rebuilt by the same components as the putter. D5 neofsid.AddKey/RemoveKey act on every submitted key (loop-exhaustive rule); netmap.SetConfig, reputation.Put and audit.Put store on every normal return. D6 the global estimation cleanup examines every scanned key (scan left only on exhaustion; an iteration goes round the delete only with epoch − e ≤ 4). M: the reputation value counter continues from the stored one. R7 collect-every: in the list getters and their same-package helpers a loop driven by iterator.Next that accumulates does so in every iteration (or skips only an item already in the map it fills). R9: the per-node list of estimation epochs is read from and written back to a key naming both the container id and the node. S3: every container tick that returns normally has scanned the estimations (scan-always; a way round that depends on a stored key nobody writes is not a way).",
+			"D3 gates: putContainerSize under W(key) ∧ membership of that key in the previous epoch's network map, audit.put under W(header.From) ∧ header.From ∈ Inner Ring. D4 cleanup: estimations are removed exactly when epoch − e > 3 (per node) resp. > 4 (global), with the key rebuilt by the same components as the putter. D5 neofsid.AddKey/RemoveKey act on every submitted key (loop-exhaustive rule); netmap.SetConfig, reputation.Put and audit.Put store on every normal return. D6 the global estimation cleanup examines every scanned key (scan left only on exhaustion; an iteration goes round the delete only with epoch − e ≤ 4). M: the reputation value counter continues from the stored one. R7 collect-every: in the list getters and their same-package helpers a loop driven by iterator.Next that accumulates does so in every iteration (or skips only an item already in the map it fills). R9: the per-node list of estimation epochs is read from and written back to a key naming both the container id and the node. S3: every container tick that returns normally has scanned the estimations (scan-always; a way round that depends on a stored key nobody writes is not a way). R13 catching-frame: no function with a deferred recover that a method of the property's contracts can reach lies outside the who-may-catch table (container.deleteNNSRecords).",
 		NotCovered: "multiset equality of listings with a model over interleavings. KNOWN FINDINGS (genuine, recorded in known_findings.json): the four scans that end in the variable-length epoch encoding.",
 		Run:        runC20,
 	})
